@@ -93,6 +93,13 @@ class Problem:
                 lb.append(self.x0[j] if hasattr(self, "x0") else F(0)); ub.append(lb[-1])
         return lb, ub
 
+    def snapshot(self):
+        """the data as the user last passed them (the property's effective problem is derived from this)"""
+        import copy
+        return {"P": copy.deepcopy(self.P), "c": list(self.c), "A": copy.deepcopy(self.A), "b": list(self.b),
+                "G": copy.deepcopy(self.G), "h": list(self.h), "lb": list(self.lb) if self.has_lb else None,
+                "ub": list(self.ub) if self.has_ub else None}
+
     def mat_arg(self, name, M, mask, r, c, sparse):
         toks = []
         for i in range(r):
@@ -154,8 +161,10 @@ class Problem:
                 self.h[rng.randrange(m)] = rng.choice(["inf", "-inf"])
             parts.append(self.vec_arg("h", self.h))
         if "lb" in subset:
+            self.has_lb = True
             self.lb, ub2 = self.rand_bounds(rng)
             if "ub" in subset:
+                self.has_ub = True
                 self.ub = ub2
             else:
                 # keep lb <= ub where both finite
@@ -164,6 +173,7 @@ class Problem:
                         self.lb[j] = self.ub[j]
             parts.append(self.vec_arg("lb", self.lb))
         if "ub" in subset:
+            self.has_ub = True
             if "lb" not in subset:
                 _, self.ub = self.rand_bounds(rng)
                 for j in range(n):
@@ -173,6 +183,41 @@ class Problem:
         return " ".join(parts)
 
 
+PIQP_INF = F(1e30)   # the double literal, exactly
+
+
+def check_line(snap):
+    """`sol.check` with the effective problem the properties talk about: latest data; rows of G whose h is beyond
+    +-1e30 disabled (0'x <= 1); bounds beyond +-1e30 absent"""
+    n, p, m = len(snap["c"]), len(snap["b"]), len(snap["h"])
+    P = snap["P"]
+    Ps = [[P[min(i, j)][max(i, j)] for j in range(n)] for i in range(n)]
+    G, h = [], []
+    for row, hv in zip(snap["G"], snap["h"]):
+        if isinstance(hv, str) or hv > PIQP_INF or hv < -PIQP_INF:
+            G.append([F(0)] * n); h.append(F(1))
+        else:
+            G.append(row); h.append(hv)
+    lb = snap["lb"] if snap["lb"] is not None else ["-inf"] * n
+    ub = snap["ub"] if snap["ub"] is not None else ["inf"] * n
+    lb = [("-inf" if (isinstance(v, str) or v <= -PIQP_INF) else v) for v in lb]
+    ub = [("inf" if (isinstance(v, str) or v >= PIQP_INF) else v) for v in ub]
+
+    def mat(name, M, r, c):
+        return f"{name} {r} {c} " + " ".join(fs(x) for row in M for x in row)
+
+    def vec(name, v):
+        return f"{name} {len(v)} " + " ".join(fs(x) for x in v)
+
+    parts = ["sol.check", mat("P", Ps, n, n), vec("c", snap["c"])]
+    if p:
+        parts += [mat("A", snap["A"], p, n), vec("b", snap["b"])]
+    if m:
+        parts += [mat("G", G, m, n), vec("h", h)]
+    parts += [vec("lb", lb), vec("ub", ub)]
+    return " ".join(parts)
+
+
 BLOCKS = ["P", "c", "A", "b", "G", "h", "lb", "ub"]
 
 
@@ -180,14 +225,17 @@ def subset_of(mask):
     return [BLOCKS[i] for i in range(8) if mask >> i & 1]
 
 
-def gen_history(rng, name, be=None, pk=None, max_iter=1, nupd=None, dims=None, settings=None, solve_between=None):
+def gen_history(rng, name, be=None, pk=None, max_iter=1, nupd=None, dims=None, settings=None, solve_between=None, bounds=None):
     be = rng.randrange(5) if be is None else be
     pk = rng.choice([0, 0, 1]) if pk is None else pk
     sparse = be != 0
-    prob = Problem(rng, *(dims or (None, None, None)))
+    prob = Problem(rng, *(dims or (None, None, None)), bounds=bounds)
+    if bounds is not None:
+        prob.has_lb = prob.has_ub = True
     st = settings or rand_settings(rng, max_iter=max_iter)
     L = [f"sol.new {be} {pk} -1", CONSTS_LINE, settings_line(st)]
     ops = []
+    snaps = []
     dense_sqrt = -1   # set below once the dimensions are known
 
     def pre_struct():
@@ -220,9 +268,11 @@ def gen_history(rng, name, be=None, pk=None, max_iter=1, nupd=None, dims=None, s
             pre_solve()
             L.append("sol.solve")
             L.append("sol.dump")
+            L.append(check_line(prob.snapshot()))
             ops.append("solve")
+            snaps.append(prob.snapshot())
         first = False
     meta = {"be": be, "pk": pk, "n": prob.n, "p": prob.p, "m": prob.m, "ops": ops, "max_iter": st["max_iter"],
             "prec_iter": st["preconditioner_iter"], "scale_cost": st["preconditioner_scale_cost"],
             "refine": st["iterative_refinement_always_enabled"]}
-    return {"name": name, "lines": L, "meta": meta}
+    return {"name": name, "lines": L, "meta": meta, "snaps": snaps, "settings": st}
